@@ -82,6 +82,11 @@ def piece_paths(ctx):
                     pp.lenpos = True
                 if g == "!lt(0, ML as Some.0)":
                     pp.lenpos = False
+                # `match len { Some(0) .. => .., Some(n) => .. }`: the test for zero compiled to a switch on the length
+                if g == "ML as Some.0=0":
+                    pp.lenpos = False
+                if g == "ML as Some.0=other" and any(isinstance(o, tuple) and o[0] == "other" and ("val", 0) in o[1] and render(a, AB) == "ML as Some.0" for a, o in p.guards):
+                    pp.lenpos = True  # every arm the switch names is excluded, 0 among them: the length is positive
                 m = re.match(r"^(!?)eq\((0|1), a1%s*\.bracket_(min|max)\)$" % P, g)
                 if m:
                     pp.cmp[(m.group(3), int(m.group(2)))] = m.group(1) == ""
